@@ -111,7 +111,7 @@ def ensure(variants=("omp", "serial"), repo=None, jobs=16):
         # prune old hashes (keep at most 3 newest)
         root = os.path.join(CACHE, "build")
         ds = sorted((os.path.getmtime(os.path.join(root, d)), d) for d in os.listdir(root))
-        for _, d in ds[:-3]:
+        for _, d in ds[:-2]:
             if d != os.path.basename(bdir):
                 shutil.rmtree(os.path.join(root, d), ignore_errors=True)
     return {v: os.path.join(bdir, v, SO_NAME) for v in variants}
